@@ -405,6 +405,19 @@ func instrBeforeOrDom(a, b ssa.Instruction) bool {
 	return reach(a.Block())
 }
 
+// ruleForceFlagOwnership: allowLeader(peer, force) skips the "store accepts
+// leaders" test when force is set. The flag is raised only by the explicit
+// builder option and by the leave-joint-state operator (which must hand the
+// leadership somewhere); planning itself never falls back to forcing.
+func ruleForceFlagOwnership(c *Ctx) {
+	P := c.P
+	f := P.Field(opk, "Builder", "forceTargetLeader")
+	c.onlyWrittenBy(c.Prop+"/leader-candidates", f, map[string]string{
+		"(*server/schedule/operator.Builder).EnableForceTargetLeader": "the explicit option",
+		"server/schedule/operator.CreateLeaveJointStateOperator":      "leaving a joint state must place the leader somewhere",
+	})
+}
+
 // rulePlannedPeerIdentity: steps that change the role of an *existing* peer
 // (promote, demote) address it by its peer id; a target given by store and role
 // only carries id 0. Whatever is recorded in toPromote/toDemote is either the
@@ -601,7 +614,7 @@ func rulePlanPriority(c *Ctx) {
 func init() {
 	register("C08", "Generated operator steps are safe and reach the requested placement", func(c *Ctx) {
 		c.Group("C08/planner-state", "steps are emitted only by the exec helpers, each of which applies its step to the simulated region state and consumes the pending task, on every path", func() { ruleBuilderState(c) })
-		c.Group("C08/leader-candidates", "target leaders and planned hand-over leaders passed allowLeader and are never the store being removed/demoted; allowLeader rejects learners, demoting voters and unknown stores; hand-over precedes demote/remove", func() { ruleLeaderCandidates(c) })
+		c.Group("C08/leader-candidates", "target leaders and planned hand-over leaders passed allowLeader and are never the store being removed/demoted; allowLeader rejects learners, demoting voters and unknown stores; hand-over precedes demote/remove", func() { ruleLeaderCandidates(c); ruleForceFlagOwnership(c) })
 		c.Group("C08/plan-priority", "one-at-a-time planning considers demote/remove only after replace and promote are exhausted", func() { rulePlanPriority(c) })
 		c.Group("C08/replace-plans", "a replace plan never adds on the store it removes from", func() { ruleReplacePlans(c) })
 		c.Group("C08/joint-ordering", "joint consensus: enter/leave without inner transfer only when the leader of that moment stays a voter; enter → transfer → leave; removals last", func() { ruleJointOrdering(c) })
